@@ -517,6 +517,9 @@ func c12One(c *hx.Ctx, g c12Cfg) {
 			c.Case(fmt.Sprintf("j2k-clamp %d %d %d", g.P, sg, v), fmt.Sprintf("ok %d", st))
 			if !inRange {
 				c.Count("clamp-line-out-of-range")
+				if g.Signed && v >= 1<<(g.P-1) {
+					c.Count("clamp-line-signed-above-max")
+				}
 			}
 			n++
 		}
@@ -626,7 +629,7 @@ func c12(c *hx.Ctx) {
 				if !c.Thorough() && (q+L+rep)%3 != 0 {
 					continue
 				}
-				g := c12Cfg{Quality: q, Levels: L, P: Ps[k%3], Signed: (k/3)%2 == 1, Comps: 1, CB: cbs[(k/6)%3], Class: k % 5}
+				g := c12Cfg{Quality: q, Levels: L, P: Ps[k%3], Signed: (k/3)%2 == 1, Comps: 1, CB: cbs[(k/6)%3], Class: []int{0, 1, 2, 3, 4, 5, 7}[k%7]}
 				if k%4 == 0 {
 					g.Comps = 3
 				}
@@ -645,6 +648,29 @@ func c12(c *hx.Ctx) {
 				}
 				c12One(c, g)
 				k++
+			}
+		}
+	}
+	// narrow images with deep decomposition: some sub-bands are empty (min(w,h) <= 2^(levels-1)); every band must
+	// still be quantised with its own QCD entry
+	for _, sz := range [][3]int{{40, 3, 3}, {40, 3, 4}, {40, 3, 6}, {3, 40, 3}, {3, 40, 5}, {1, 9, 2}, {1, 9, 3}, {1, 9, 6}, {9, 1, 2}, {9, 1, 4},
+		{12, 12, 5}, {12, 12, 6}, {2, 2, 2}, {5, 17, 4}, {1, 1, 3}} {
+		for _, q := range []int{5, 30, 60, 90} {
+			for _, cl := range []int{0, 3} {
+				c12One(c, c12Cfg{W: sz[0], H: sz[1], Comps: 1 + 2*(q/30%2), P: Ps[(q/5+cl)%3], Quality: q, Levels: sz[2], CB: 32, Class: cl, Signed: cl == 3})
+				c.Count("narrow-deep")
+			}
+		}
+	}
+	// signed samples at the top of the range, coarse steps: overshoot above +max must clamp to +max
+	for _, P := range []int{12, 16} {
+		for _, q := range []int{1, 5, 10, 20} {
+			for _, L := range []int{0, 1, 3, 5} {
+				for _, cl := range []int{7, 2} {
+					c12One(c, c12Cfg{W: 24, H: 17, Comps: 1, P: P, Signed: true, Quality: q, Levels: L, CB: 32, Class: cl})
+					c12One(c, c12Cfg{W: 9, H: 9, Comps: 3, P: P, Signed: true, Quality: q, Levels: L, CB: 16, Class: cl})
+					c.Count("signed-top-of-range")
+				}
 			}
 		}
 	}
